@@ -11,7 +11,7 @@ values: `i5` `i-3` int · `(v;v)` list · `<k=v,k=v>` dotdict instance (a tree) 
 namespace Cpppo.Driver.Dotdict
 open Cpppo.Dotdict
 
-def commands : List String := ["dd"]
+def commands : List String := ["dd", "ddh"]
 
 /-! ### values -/
 
@@ -202,7 +202,30 @@ def runOps (cfg : Cfg) : World → List String → List String → Option (List 
     if res == "oom" then pure (entry :: acc).reverse
     else runOps cfg w' rest (entry :: acc)
 
+/-- `ka` / `i0` steps separated by commas -/
+def stepsOf (s : String) : Option (List Heap.Step) :=
+  (Wire.splitNonEmpty s ',').mapM fun t =>
+    match t.toList with
+    | 'k' :: r => some (Heap.Step.key r)
+    | 'i' :: r => (String.ofList r).toNat?.map Heap.Step.idx
+    | _ => none
+
+/-- `ddh <fixed> <tree> <steps> <k> <v>`: build the tree in an empty heap, `copy.copy` it, assign the int
+`v` at `copy[steps][k]`, and show how the original and the copy read afterwards -/
+def handleHeap (fixed : Bool) (tree steps k v : String) : Option String := do
+  let t ← treeOf tree.toList
+  let path ← stepsOf steps
+  let vi ← parseInt v.toList
+  let (h0, d) := Heap.alloc t []
+  let fuel := h0.length + 2
+  let (h1, c) := Heap.copyObj fixed fuel h0 d
+  match Heap.assign h1 c path k.toList vi with
+  | none => pure "none"
+  | some h2 => pure (str (showTree (Heap.read (h2.length + 2) h2 d)) ++ "~" ++
+      str (showTree (Heap.read (h2.length + 2) h2 c)))
+
 def handle : List String → Option String
+  | ["ddh", fixed, tree, steps, k, v] => handleHeap (fixed == "1") tree steps k v
   | "dd" :: flags :: ops => do
     let fl := flags.toList
     let cfg : Cfg := { reserved := Generated.dotdictInvalidKeys,
